@@ -14,6 +14,6 @@ K_D == 63763200
 K_GD == 564136533
 K_Gap == 1
 K_OntSupply == 1000000000
-K_OngSupply == 1000000000000000000
+K_OngSupply == K_OntSupply * 1000000000 + 0   \* 10^18 (TLC cannot parse the literal)
 K_GapAtDeadline == FALSE
 =============================================================================
